@@ -26,6 +26,11 @@ func TestC01_Wide(t *testing.T) {
 		if rapid.Bool().Draw(rt, "anyN") {
 			n = rapid.IntRange(2, 300).Draw(rt, "nAny")
 		}
+		op := rapid.SampledFrom([]string{"OR", "AND"}).Draw(rt, "op")
+		shape := rapid.SampledFrom([]string{"flat", "flat", "blocks"}).Draw(rt, "shape")
+		if (op == "AND" || shape == "blocks") && n > 66 {
+			n = 63 + n%4 // these shapes need long allowed lists; the library's term x entry comparison is quadratic and slow
+		}
 		perm := rapid.Permutation(ids).Draw(rt, "ids")[:n]
 		c := TreeCase{RefOnly: n > 24}
 		for _, id := range perm {
@@ -35,8 +40,6 @@ func TestC01_Wide(t *testing.T) {
 			}
 			c.Pool = append(c.Pool, tb.MakeLicTerm(id, form, 0, "", 0, "", ""))
 		}
-		op := rapid.SampledFrom([]string{"OR", "AND"}).Draw(rt, "op")
-		shape := rapid.SampledFrom([]string{"flat", "flat", "blocks"}).Draw(rt, "shape")
 		root := &Node{Op: op}
 		if shape == "flat" {
 			for i := range perm {
